@@ -250,6 +250,53 @@ def property_violation(case, out):
     return None
 
 
+def alias_sweep(r, n_cases):
+    """two collections: dst.extend(src) hands src's group lists to dst (the same list objects); whatever dst does afterwards, a
+    lookup in src - whose own index was never invalidated - must still return a group that contains the protein (monitor only: the
+    functional model has no aliasing)"""
+    from picked_group_fdr.protein_groups import ProteinGroups
+    rng = r.rng
+    n = 0
+    for _ in range(n_cases):
+        src_groups = [[f"S{i}{j}" for j in range(rng.choice([1, 2, 3]))] for i in range(rng.randint(1, 4))]
+        dst_groups = [[f"D{i}{j}" for j in range(rng.choice([1, 2]))] for i in range(rng.randint(0, 3))]
+        src = ProteinGroups.init_from_list([list(g) for g in src_groups])
+        dst = ProteinGroups.init_from_list([list(g) for g in dst_groups])
+        dst.extend(src)
+        dst.create_index()
+        prots = [p for g in src_groups + dst_groups for p in g]
+        ops = []
+        for _ in range(rng.randint(1, 6)):
+            k = rng.random()
+            try:
+                if k < 0.6:
+                    a, b = rng.sample(prots, 2)
+                    ops.append(["merge", a, b])
+                    dst.merge_groups(a, b)
+                elif k < 0.8:
+                    ops.append(["remove_empty"])
+                    dst.remove_empty_groups()
+                else:
+                    ops.append(["create_index"])
+                    dst.create_index()
+            except Exception:
+                pass
+            n += 1
+            for p in (q for g in src_groups for q in g):
+                try:
+                    g1 = src.get_protein_group(p)
+                    gs = src.get_protein_groups([p])
+                except Exception:
+                    continue            # failing loudly is allowed
+                if p not in g1 or any(p not in g for g in gs) or not gs:
+                    r.violation("property-failure", {"suite": "alias_sweep", "src": src_groups, "dst": dst_groups, "ops_on_dst": ops, "lookup_in_src": p,
+                                                     "returned": [list(g1), [list(g) for g in gs]], "src_groups_now": [list(g) for g in src.protein_groups]},
+                                True, f"alias_sweep: after dst.extend(src) and {ops} on dst, src's lookup of {p} returns {list(g1)} / "
+                                      f"{[list(g) for g in gs]}, which does not contain it")
+                    return n
+    return n
+
+
 SUITES = [HistorySuite()]
 
 
@@ -276,5 +323,6 @@ def run(r: core.Runner):
         orig(kind, data, found_input, what)
     r.violation = violation
     r.run_suite(s)
+    r.traces = (r.traces or 0) + alias_sweep(r, core.tier_n(r.tier, 300, 5000))
     r.exhaustive = True
     r.extra["exhaustive_scope"] = "all operation sequences up to length %d over the 12-operation alphabet" % (4 if r.tier == "thorough" else 3)
